@@ -47,7 +47,7 @@ def u32(n):
     return [(n >> 24) & 255, (n >> 16) & 255, (n >> 8) & 255, n & 255]
 
 
-SYN_MSGS = ['I> value = %u', 'E> Dev 0x%x: Fail count = %d', 'Cmd Data: 0x%08X', 'no args here', '%c%c%c', '%d %d %d %d %d',
+SYN_MSGS = ['battery 100%% full', '%%', 'a %% b %% c', 'caf\u00e9 %u \u4e2d', 'I> value = %u', 'E> Dev 0x%x: Fail count = %d', 'Cmd Data: 0x%08X', 'no args here', '%c%c%c', '%d %d %d %d %d',
             '%d %d %d %d %d %d', '100%% sure %u', 'bad %', 'x=%.4X y=%02u', '%s and %i']
 
 
